@@ -121,9 +121,72 @@ func (e *Engine) refKindsResult() *FuncResult {
 			}
 			ctx.addOblig("refkinds", key+":handles:"+k, BoolLit(ok), e.pos(fn))
 		}
+		// completeness of the claim: every callback this name-changing / reference-collecting visitor registers is
+		// a function under a C05 contract - a callback added later (say OnDisjunction rewriting discriminator
+		// mappings) is not silently outside the claim
+		for field, target := range e.visitorCallbacks(fn) {
+			ct := e.contractFor(target)
+			under := false
+			if ct != nil {
+				for _, p := range ct.Props {
+					if p == "C05" {
+						under = true
+					}
+				}
+			}
+			ctx.addOblig("refkinds", key+":callback-"+field+"-is-under-contract", BoolLit(under), e.pos(target))
+		}
 	}
 	res.Obligs = ctx.obligs
 	return res
+}
+
+// visitorCallbacks: field name -> function stored into that field of a compiler.Visitor literal of fn
+// (bound methods resolved to the method).
+func (e *Engine) visitorCallbacks(fn *ssa.Function) map[string]*ssa.Function {
+	out := map[string]*ssa.Function{}
+	for _, b := range fn.Blocks {
+		for _, in := range b.Instrs {
+			st, ok := in.(*ssa.Store)
+			if !ok {
+				continue
+			}
+			fa, ok := st.Addr.(*ssa.FieldAddr)
+			if !ok {
+				continue
+			}
+			pt, ok := fa.X.Type().Underlying().(*types.Pointer)
+			if !ok {
+				continue
+			}
+			nt, ok := pt.Elem().(*types.Named)
+			if !ok || nt.Obj().Name() != "Visitor" || nt.Obj().Pkg() == nil || nt.Obj().Pkg().Name() != "compiler" {
+				continue
+			}
+			var target *ssa.Function
+			v := st.Val
+			if ct, isCT := v.(*ssa.ChangeType); isCT {
+				v = ct.X
+			}
+			switch x := v.(type) {
+			case *ssa.MakeClosure:
+				cf, _ := x.Fn.(*ssa.Function)
+				if cf != nil && cf.Synthetic != "" && len(x.Bindings) == 1 {
+					if m, isM := cf.Object().(*types.Func); isM {
+						target = e.prog.FuncValue(m)
+					}
+				} else {
+					target = cf
+				}
+			case *ssa.Function:
+				target = x
+			}
+			if target != nil {
+				out[nt.Underlying().(*types.Struct).Field(fa.Field).Name()] = target
+			}
+		}
+	}
+	return out
 }
 
 func (e *Engine) pos(fn *ssa.Function) string {
